@@ -1084,3 +1084,115 @@ Qed.
 Lemma fixed_view_client e t f h body :
   client_decode e t (Some f) h body = client_decode e t (Some f) None body.
 Proof. reflexivity. Qed.
+
+(* ------------------------------------------------ where the rendered attributes travel *)
+
+Lemma vfind_hdr m fs a : vfind (hdr_f m fs) a = if mem_name a m then vfind fs a else None.
+Proof.
+  induction fs as [|b x rest IH] using vflds_simple_ind; simpl; [now destruct (mem_name a m)|].
+  destruct (String.eqb b a) eqn:E.
+  - apply String.eqb_eq in E; subst b. destruct (mem_name a m) eqn:M; simpl.
+    + now rewrite String.eqb_refl.
+    + rewrite IH. now rewrite ?M.
+  - destruct (mem_name b m); simpl; [rewrite E|]; exact IH.
+Qed.
+
+Lemma vfind_body m fs a : vfind (body_f m fs) a = if mem_name a m then None else vfind fs a.
+Proof.
+  induction fs as [|b x rest IH] using vflds_simple_ind; simpl; [now destruct (mem_name a m)|].
+  destruct (String.eqb b a) eqn:E.
+  - apply String.eqb_eq in E; subst b. destruct (mem_name a m) eqn:M; simpl.
+    + rewrite IH. now rewrite ?M.
+    + now rewrite String.eqb_refl.
+  - destruct (mem_name b m); simpl; [|rewrite E]; exact IH.
+Qed.
+
+Lemma keys_hdr m fs : keys (hdr_f m fs) = filter (fun a => mem_name a m) (keys fs).
+Proof.
+  induction fs as [|b x rest IH] using vflds_simple_ind; simpl; [reflexivity|].
+  destruct (mem_name b m); simpl; now rewrite IH.
+Qed.
+
+Lemma keys_body m fs : keys (body_f m fs) = filter (fun a => negb (mem_name a m)) (keys fs).
+Proof.
+  induction fs as [|b x rest IH] using vflds_simple_ind; simpl; [reflexivity|].
+  destruct (mem_name b m); simpl; now rewrite IH.
+Qed.
+
+Lemma has_field_vfind fs a : has_field fs a = match vfind fs a with Some _ => true | None => false end.
+Proof.
+  induction fs as [|b x rest IH] using vflds_simple_ind; simpl; [reflexivity|].
+  destruct (String.eqb b a); simpl; [reflexivity|exact IH].
+Qed.
+
+Lemma body_has_no_carried m fs a : mem_name a m = true -> has_field (body_f m fs) a = false.
+Proof. intros H. now rewrite has_field_vfind, vfind_body, H. Qed.
+
+Lemma hdr_has_only_carried m fs a : mem_name a m = false -> has_field (hdr_f m fs) a = false.
+Proof. intros H. now rewrite has_field_vfind, vfind_hdr, H. Qed.
+
+Lemma split_loses_nothing m fs a :
+  vfind fs a = if mem_name a m then vfind (hdr_f m fs) a else vfind (body_f m fs) a.
+Proof. rewrite vfind_hdr, vfind_body. now destruct (mem_name a m). Qed.
+
+Lemma server_wire_shape e c t fixed chosen m fs :
+  has_view e t (selected fixed chosen) = true ->
+  exists h fs', restrict e (false, t, selected fixed chosen) (VObj fs) = VObj fs' /\
+    server_wire e c t fixed chosen m (VObj fs) = WResp h (hdr_f m fs') (VObj (body_f m fs')).
+Proof.
+  intros Hv. unfold server_wire, server_respond, selected in *.
+  assert (Hr : exists fs', restrict e (false, t, norm match fixed with Some f => f | None => chosen end) (VObj fs) = VObj fs').
+  { cbn [restrict]. destruct (entries e _) as [[r l]|]; eauto. }
+  destruct Hr as [fs' Hr].
+  destruct fixed as [f|]; rewrite Hv, Hr; eauto.
+Qed.
+
+Lemma wire_parts_in_view e k r l m fs fs' a :
+  entries e k = Some (r, l) -> restrict e k (VObj fs) = VObj fs' ->
+  In a (keys (hdr_f m fs') ++ keys (body_f m fs')) -> listed l a = true /\ has_attr r a = true.
+Proof.
+  intros He Hr Hin. cbn [restrict] in Hr. rewrite He in Hr. inversion Hr; subst fs'. clear Hr.
+  rewrite keys_hdr, keys_body, !keys_restrict in Hin.
+  apply in_app_or in Hin. destruct Hin as [Hin|Hin]; apply filter_In in Hin; destruct Hin as [Hin _];
+    apply filter_In in Hin; destruct Hin as [_ Hp]; now apply andb_true_iff in Hp.
+Qed.
+
+(* --------------------------------------------------- the generated view constructors *)
+
+Lemma find_attr_name r a at_ : find_attr r a = Some at_ -> a_name at_ = a.
+Proof. intros H. apply find_attr_in_in in H. tauto. Qed.
+
+Lemma ctor_plan_names e t v r l plan a :
+  entries e (false, t, v) = Some (r, l) -> ctor_plan e t v = Some plan ->
+  (In a (map fst plan) <-> listed l a = true /\ has_attr r a = true).
+Proof.
+  intros He Hp. unfold ctor_plan in Hp. rewrite He in Hp. inversion Hp; subst plan. clear Hp.
+  rewrite in_map_iff. split.
+  - intros ([a' call] & <- & Hin). apply in_flat_map in Hin. destruct Hin as (at0 & Hat & Hin).
+    unfold listed, has_attr. destruct (view_entry l (a_name at0)) as [ov|] eqn:Ve; [|destruct Hin].
+    destruct (find_attr r (a_name at0)) as [at_|] eqn:Fa; [|destruct Hin].
+    destruct Hin as [Hin|[]]. inversion Hin; subst. simpl. now rewrite Ve, Fa.
+  - intros [Hl Ha]. unfold listed in Hl. unfold has_attr in Ha.
+    destruct (view_entry l a) as [ov|] eqn:Ve; [|discriminate].
+    destruct (find_attr r a) as [at_|] eqn:Fa; [|discriminate].
+    exists (a, ctor_call ov at_). split; [reflexivity|].
+    apply in_flat_map. exists at_. pose proof (find_attr_in_in _ _ _ Fa) as [Hin Hn]. split; [exact Hin|].
+    rewrite Hn, Ve, Fa. now left.
+Qed.
+
+Lemma ctor_plan_calls e n t v r l plan a c t' u :
+  entries e (false, t, v) = Some (r, l) -> ctor_plan e t v = Some plan ->
+  In (a, Some (c, t', u)) plan ->
+  exists fs, sproject (S n) e (false, t, v) = PObj t v fs (req_in false r l) /\
+             pfind fs a = Some (wrapw (if c then WColl else WNone) (sproject n e (false, t', u))).
+Proof.
+  intros He Hp Hin. unfold ctor_plan in Hp. rewrite He in Hp. inversion Hp; subst plan. clear Hp.
+  apply in_flat_map in Hin. destruct Hin as (at0 & Hat & Hin).
+  destruct (view_entry l (a_name at0)) as [ov|] eqn:Ve; [|destruct Hin].
+  destruct (find_attr r (a_name at0)) as [at_|] eqn:Fa; [|destruct Hin].
+  destruct Hin as [Hin|[]]. inversion Hin; subst a. clear Hin.
+  destruct (sproject_shape e n (false, t, v) r l He) as (fs & Hs & _ & Hf).
+  exists fs. split; [exact Hs|]. rewrite Hf, Ve, Fa. f_equal.
+  unfold child, target. unfold ctor_call in H1. cbn [snd].
+  destruct (a_ty at_); inversion H1; subst; reflexivity.
+Qed.
